@@ -203,6 +203,11 @@ impl<'a> Packet<'a> {
 
     /// Write the contents of this package in wire format with enabled compression into the provided writer
     pub fn write_compressed_to<T: Write + Seek>(&self, out: &mut T) -> crate::Result<()> {
+        // compression pointers are offsets from the start of the message,
+        // which is not the start of the stream when `out` is already positioned
+        let origin = out.stream_position()?;
+        let out = &mut MessageStream { inner: out, origin };
+
         self.write_header(out)?;
 
         let mut name_refs = HashMap::new();
@@ -236,6 +241,38 @@ impl<'a> Packet<'a> {
             self.name_servers.len() as u16,
             self.additional_records.len() as u16 + u16::from(self.header.opt.is_some()),
         )
+    }
+}
+
+/// A view of a stream in which position 0 is where the DNS message starts
+struct MessageStream<'a, T> {
+    inner: &'a mut T,
+    origin: u64,
+}
+
+impl<T: Write> Write for MessageStream<'_, T> {
+    fn write(&mut self, buf: &[u8]) -> std::io::Result<usize> {
+        self.inner.write(buf)
+    }
+
+    fn flush(&mut self) -> std::io::Result<()> {
+        self.inner.flush()
+    }
+}
+
+impl<T: Seek> Seek for MessageStream<'_, T> {
+    fn seek(&mut self, pos: std::io::SeekFrom) -> std::io::Result<u64> {
+        let pos = match pos {
+            std::io::SeekFrom::Start(offset) => std::io::SeekFrom::Start(offset + self.origin),
+            relative => relative,
+        };
+
+        self.inner.seek(pos)?.checked_sub(self.origin).ok_or_else(|| {
+            std::io::Error::new(
+                std::io::ErrorKind::InvalidInput,
+                "seek before the start of the message",
+            )
+        })
     }
 }
 
